@@ -159,4 +159,107 @@ fn run(ctx: &Ctx, out: &mut Out) {
         }
         let _ = i;
     }
+    leg_siblings(ctx, out, &types, cap);
+}
+
+/// what `==`, `cmp`, `partial_cmp` and `hash` must say about two values of one type
+fn judge(ax: &Value, bx: &Value, same: bool) -> Option<(&'static str, String)> {
+    let eq = ax == bx;
+    let c = ax.cmp(bx);
+    let c2 = bx.cmp(ax);
+    if eq != same {
+        return Some(("eq:not-semantic", format!("a == b is {eq}, denotations {}", if same { "equal" } else { "differ" })));
+    }
+    if (c == Ordering::Equal) != same {
+        return Some(("ord:equal-inconsistent", format!("cmp = {c:?} but denotations {}", if same { "equal" } else { "differ" })));
+    }
+    if c2 != c.reverse() {
+        return Some(("ord:antisymmetry", format!("cmp(a,b) = {c:?}, cmp(b,a) = {c2:?}")));
+    }
+    if ax.partial_cmp(bx) != Some(c) {
+        return Some(("ord:partial", "partial_cmp disagrees with cmp".into()));
+    }
+    if same && h(ax) != h(bx) {
+        return Some(("hash:not-semantic", "equal values hash differently".into()));
+    }
+    None
+}
+
+/// Sub-values cut out of ONE parent value: they share the parent's buffer and differ only in their
+/// offset into it (independently produced values never share a buffer). Parents (a, b) : T * T and
+/// (a, (b, a)) : T * (T * T), built by constructor, from compact bits and from padded bits; every
+/// pair of siblings is compared with each other and with a constructor-built copy.
+fn leg_siblings(ctx: &Ctx, out: &mut Out, types: &[Rc<RT>], cap: usize) {
+    use simplicity::BitIter;
+    let leg = "siblings";
+    for t in types {
+        if t.cardinality() > cap as u128 {
+            continue;
+        }
+        let vals = values_of(t, cap).0;
+        for a in &vals {
+            if !ctx.mine() {
+                continue;
+            }
+            for b in &vals {
+                let pt2 = RT::prod(t, t);
+                let pt3 = RT::prod(t, &pt2);
+                let p2 = RV::pair(a, b);
+                let p3 = RV::pair(a, &RV::pair(b, a));
+                for how in ["ctor", "compact", "padded"] {
+                    let label = || format!("siblings of ({a}, {b}) : {t} * {t} and of ({a}, ({b}, {a})), parent via {how}");
+                    if !ctx.begin(leg, &label) {
+                        continue;
+                    }
+                    out.evaluations += 1;
+                    out.states += 1;
+                    out.nontrivial += 1;
+                    let r = guard(|| -> Result<Option<(&'static str, String)>, String> {
+                        let mk = |v: &Rc<RV>, ty: &Rc<RT>| -> Result<Value, String> {
+                            Ok(match how {
+                                "ctor" => v.to_value(ty),
+                                "compact" => {
+                                    let bytes = crate::reference::bits::bits_to_bytes(&v.compact());
+                                    Value::from_compact_bits(&mut BitIter::from(bytes.as_slice()), &ty.to_final()).map_err(|e| e.to_string())?
+                                }
+                                _ => {
+                                    let bytes = crate::reference::bits::bits_to_bytes(&v.padded_fill(ty, false));
+                                    Value::from_padded_bits(&mut BitIter::from(bytes.as_slice()), &ty.to_final()).map_err(|e| e.to_string())?
+                                }
+                            })
+                        };
+                        let par2 = mk(&p2, &pt2)?;
+                        let par3 = mk(&p3, &pt3)?;
+                        let (l2, r2) = par2.as_ref().as_product().ok_or("as_product None")?;
+                        let (l3, rest) = par3.as_ref().as_product().ok_or("as_product None")?;
+                        let (m3, r3) = rest.as_product().ok_or("as_product None")?;
+                        // (value, denotation)
+                        let sibs: Vec<(Value, &Rc<RV>)> = vec![(l2.to_value(), a), (r2.to_value(), b), (l3.to_value(), a), (m3.to_value(), b), (r3.to_value(), a), (a.to_value(t), a), (b.to_value(t), b)];
+                        for (x, dx) in &sibs {
+                            if RV::from_value(x).ok().as_ref() != Some(*dx) {
+                                return Ok(Some(("sub:denotation", format!("a sub-value of the parent denotes {:?}, expected {dx}", RV::from_value(x).map(|v| v.to_string())))));
+                            }
+                            for (y, dy) in &sibs {
+                                out.transitions += 1;
+                                if let Some((c, d)) = judge(x, y, dx == dy) {
+                                    return Ok(Some((c, format!("{d} (comparing sub-values denoting {dx} and {dy})"))));
+                                }
+                            }
+                        }
+                        Ok(None)
+                    });
+                    match r {
+                        Ok(Ok(None)) => {
+                            out.outcome("siblings:consistent");
+                            out.sample(leg, || (label(), "==, cmp, hash of all sibling pairs consistent with denotation".into()));
+                        }
+                        Ok(Ok(Some((c, d)))) => out.violation(c, leg, label(), d),
+                        Ok(Err(e)) => out.violation("siblings:build", leg, label(), e),
+                        Err(p) => out.violation(&panic_class(&p), leg, label(), p),
+                    }
+                    ctx.end();
+                }
+            }
+        }
+    }
 }
